@@ -609,6 +609,19 @@ def _(nq):
     _shift_variant(nq, refuse_cleanly=True)
 
 
+@mutant('m10_active_generator_global_threads', 'C10', True, '_random_complex parks the seeded generator in a module-level "current generator" slot between creating and using it: exact single-threaded, draws from another call\'s generator when two caller threads interleave')
+def _(nq):
+    ri = nq.random._internal
+    orig = ri._random_complex
+    active = [None]
+
+    def _random_complex(*size, seed=None):
+        active[0] = ri.get_numpy_rng(seed)
+        ri.get_numpy_rng(active[0])  # numqi code between the store and the use: a pre-emption point
+        return active[0].normal(size=size + (2,)).astype(np.float64, copy=False).view(np.complex128).reshape(size)
+    _replace_everywhere(orig, _random_complex)
+
+
 def apply_from_env(nq):
     import os
     name = os.environ.get('NUMQI_VERIF_MUTANT')
